@@ -9,7 +9,9 @@ mod c01;
 mod c04;
 mod c06;
 mod c07;
+mod c09;
 mod c10;
+mod c11;
 
 pub struct Rng(pub u64);
 impl Rng {
@@ -58,6 +60,8 @@ fn main() {
         "C01" => { c01::search(&mut rng, budget, &mut fails); if fails.is_empty() { c06::search(&mut rng, budget / 4, &mut fails); } }
         "C07" => c07::search(&mut rng, budget, &mut fails),
         "C06" => c06::search(&mut rng, budget, &mut fails),
+        "C11" | "C12" => c11::search(&mut rng, budget, &mut fails),
+        "C09" => c09::search(&mut rng, budget, &mut fails),
         "C10" => c10::search(&mut rng, budget, &mut fails),
         "C04" | "C03" => c04::search(&mut rng, budget, &mut fails),
         _ => {
